@@ -525,16 +525,16 @@ def zero_one_pair(rnd):
 
 
 def edge_near_threshold(rnd, t, tries=30000):
-    """text with a channel at the gamut boundary (0 or 255) whose ratio lies within 2.5% BELOW the requirement t:
+    """text with a channel at the gamut boundary (0 or 255) whose ratio lies within 2 % BELOW the requirement t:
     the smallest useful change then has to move the other channels"""
     for _ in range(tries):
         bg = rand_colour(rnd)
         c = [rnd.randrange(256), rnd.randrange(256), rnd.randrange(256)]
         c[rnd.randrange(3)] = rnd.choice((0, 255))
-        if rnd.random() < 0.3:
+        if rnd.random() < 0.45:
             c[rnd.randrange(3)] = rnd.choice((0, 255))
         r = refs.wcag_ratio(c, bg)
-        if 0.975 * t <= r < t:
+        if 0.98 * t <= r < t:
             return tuple(c), bg
     return near_threshold(rnd, t, (0.0, 0.025))
 
